@@ -4,6 +4,7 @@
 import Wbxml.Model.Alloc
 namespace Wbxml.Model.Alloc
 open Wbxml
+set_option linter.unusedSimpArgs false
 
 @[simp] theorem bind_eq (p : Prog α) (f : α → Prog β) : (p >>= f) = Prog.bind p f := rfl
 @[simp] theorem pure_eq (a : α) : (pure a : Prog α) = Prog.ret a := rfl
@@ -173,5 +174,172 @@ theorem run_nohit (p : Prog α) (s : Ledger) (h : (run p s).2.hits = s.hits) :
         exact ih s h
       · simp only [ha, if_false]
   | ub w => simp [run]
+
+/-! ### Specifications: weakest-precondition style over `run` -/
+
+/-- The run ends without fault and its result and final ledger satisfy `Q`. -/
+def Good (p : Prog α) (s : Ledger) (Q : α → Ledger → Prop) : Prop :=
+  match run p s with
+  | (.ok a, s') => Q a s'
+  | (.error _, _) => False
+
+theorem Good.bind {p : Prog α} {f : α → Prog β} {s : Ledger} {Q : α → Ledger → Prop} {R : β → Ledger → Prop}
+    (hp : Good p s Q) (hf : ∀ a s', Q a s' → Good (f a) s' R) : Good (Prog.bind p f) s R := by
+  unfold Good at hp ⊢
+  rw [run_bind]
+  generalize run p s = r at hp ⊢
+  match r, hp with
+  | (.ok a, s'), hp => exact hf a s' hp
+  | (.error _, _), hp => exact hp.elim
+
+theorem Good.mono {p : Prog α} {s : Ledger} {Q Q' : α → Ledger → Prop}
+    (hp : Good p s Q) (h : ∀ a s', Q a s' → Q' a s') : Good p s Q' := by
+  unfold Good at hp ⊢
+  generalize run p s = r at hp ⊢
+  match r, hp with
+  | (.ok a, s'), hp => exact h a s' hp
+  | (.error _, _), hp => exact hp.elim
+
+theorem good_ret {a : α} {s : Ledger} {Q : α → Ledger → Prop} : Good (Prog.ret a) s Q ↔ Q a s := by
+  simp [Good, run]
+
+/-- What a `Good` run says about `run`. -/
+theorem Good.elim {p : Prog α} {s : Ledger} {Q : α → Ledger → Prop} (h : Good p s Q) :
+    ∃ a s', run p s = (.ok a, s') ∧ Q a s' := by
+  unfold Good at h
+  generalize run p s = r at h
+  match r, h with
+  | (.ok a, s'), h => exact ⟨a, s', rfl, h⟩
+  | (.error _, _), h => exact h.elim
+
+/-- The ledger effect of a run: the blocks `cons` were released, the blocks `prod` were handed out
+    and are still live; everything else is as before. -/
+structure Clean (s s' : Ledger) (cons prod : List Nat) : Prop where
+  live : ∀ i, i ∈ s'.live ↔ (i ∈ s.live ∧ i ∉ cons) ∨ i ∈ prod
+  fresh : ∀ i ∈ prod, i ∈ cons ∨ (s.next < i ∧ i ≤ s'.next)
+  nodup : prod.Nodup
+  sched : s'.sched = s.sched
+  next : s.next ≤ s'.next
+  hits : s.hits ≤ s'.hits
+  wf : s'.WF
+
+theorem Clean.rfl {s : Ledger} (wf : s.WF) : Clean s s [] [] :=
+  ⟨by simp, by simp, by simp, by simp, Nat.le_refl _, Nat.le_refl _, wf⟩
+
+/-- Bring the fields of a `Clean` fact into the context (for `grind` / `omega`). -/
+macro "expose " c:ident : tactic =>
+  `(tactic| (have := ($c).live; have := ($c).fresh; have := ($c).nodup; have := ($c).next; have := ($c).hits; have := ($c).sched; have := ($c).wf))
+
+/-- The ids are live and pairwise distinct: the caller owns these blocks. -/
+def Owns (s : Ledger) (ids : List Nat) : Prop := ids.Nodup ∧ ∀ i ∈ ids, i ∈ s.live
+
+theorem Owns.nil (s : Ledger) : Owns s [] := ⟨List.nodup_nil, by simp⟩
+
+theorem Owns.cons_iff {s : Ledger} {a : Nat} {A : List Nat} :
+    Owns s (a :: A) ↔ a ∈ s.live ∧ a ∉ A ∧ Owns s A := by
+  simp only [Owns, List.nodup_cons, List.mem_cons]
+  constructor
+  · rintro ⟨⟨h1, h2⟩, h3⟩; exact ⟨h3 a (Or.inl rfl), h1, h2, fun i hi => h3 i (Or.inr hi)⟩
+  · rintro ⟨h1, h2, h3, h4⟩; exact ⟨⟨h2, h3⟩, fun i hi => by rcases hi with rfl | hi; exact h1; exact h4 i hi⟩
+
+theorem Owns.append_iff {s : Ledger} {A B : List Nat} :
+    Owns s (A ++ B) ↔ Owns s A ∧ Owns s B ∧ ∀ i ∈ A, i ∉ B := by
+  simp only [Owns, List.nodup_append, List.mem_append]
+  constructor
+  · rintro ⟨⟨h1, h2, h3⟩, h4⟩
+    exact ⟨⟨h1, fun i hi => h4 i (Or.inl hi)⟩, ⟨h2, fun i hi => h4 i (Or.inr hi)⟩, fun i hi hb => h3 i hi i hb rfl⟩
+  · rintro ⟨⟨h1, h2⟩, ⟨h3, h4⟩, h5⟩
+    exact ⟨⟨h1, h3, fun a ha b hb hab => h5 a ha (hab ▸ hb)⟩, fun i hi => by rcases hi with hi | hi; exact h2 i hi; exact h4 i hi⟩
+
+/-- Nothing happened: owned blocks "consumed and produced again". -/
+theorem Clean.id {s : Ledger} {X : List Nat} (wf : s.WF) (own : Owns s X) : Clean s s X X :=
+  ⟨fun i => by have := own.2 i; grind,
+   fun i hi => Or.inl hi, own.1, Eq.refl _, Nat.le_refl _, Nat.le_refl _, wf⟩
+
+/-- Blocks that a run did not consume are still owned afterwards. -/
+theorem Clean.keeps {s s' : Ledger} {cons prod Y : List Nat} (c : Clean s s' cons prod) (own : Owns s Y)
+    (disj : ∀ i ∈ Y, i ∉ cons) : Owns s' Y :=
+  ⟨own.1, fun i hi => (c.live i).2 (Or.inl ⟨own.2 i hi, disj i hi⟩)⟩
+
+/-- Blocks a run produced are owned afterwards. -/
+theorem Clean.owns {s s' : Ledger} {cons prod : List Nat} (c : Clean s s' cons prod) : Owns s' prod :=
+  ⟨c.nodup, fun i hi => (c.live i).2 (Or.inr hi)⟩
+
+/-- Fresh blocks are distinct from everything that was live. -/
+theorem Clean.fresh_not_live {s s' : Ledger} {prod : List Nat} (c : Clean s s' [] prod) (wf : s.WF) :
+    ∀ i ∈ prod, i ∉ s.live := by
+  intro i hi hl
+  have := c.fresh i hi
+  have := wf i hl
+  simp at *; omega
+
+/-- Blocks produced by an earlier run are distinct from blocks produced by a later one. -/
+theorem Clean.disjoint_later {s s1 s2 : Ledger} {P1 P2 : List Nat}
+    (c1 : Clean s s1 [] P1) (c2 : Clean s1 s2 [] P2) : ∀ i ∈ P1, i ∉ P2 := by
+  intro i hi hj
+  have := c1.fresh i hi
+  have := c2.fresh i hj
+  simp at *; omega
+
+theorem malloc_spec (s : Ledger) (wf : s.WF) :
+    Good malloc s (fun p s' => Clean s s' [] p.toList ∧ (s.hits < s'.hits → p = none)) := by
+  unfold Good malloc
+  by_cases hf : s.fails (s.next + 1) = true
+  · simp only [run, hf, if_true]
+    refine ⟨⟨by simp, by simp, by simp, by simp, by simp, by simp, ?_⟩, by simp⟩
+    intro i hi; have := wf i hi; simp; omega
+  · simp only [run, hf]
+    refine ⟨⟨by simp, by simp, by simp, by simp, by simp, by simp, ?_⟩, by simp⟩
+    intro i hi
+    simp only [List.mem_append, List.mem_singleton] at hi
+    rcases hi with hi | hi
+    · have := wf i hi; simp; omega
+    · simp; omega
+
+/-- `realloc`: on success the old block (if any) is consumed and a new one produced. -/
+theorem realloc_spec (p : Ptr) (s : Ledger) (wf : s.WF) (h : ∀ a, p = some a → a ∈ s.live) :
+    Good (realloc p) s (fun q s' =>
+      Clean s s' (if q.isSome then p.toList else []) q.toList ∧ (s.hits < s'.hits → q = none) ∧
+      (∀ x, q = some x → s.next < x ∧ x ≤ s'.next)) := by
+  unfold Good realloc
+  by_cases hf : s.fails (s.next + 1) = true
+  · simp only [run, hf, if_true]
+    refine ⟨⟨by simp, by simp, by simp, by simp, by simp, by simp, ?_⟩, by simp, by simp⟩
+    intro i hi; have := wf i hi; simp; omega
+  · simp only [run, hf]
+    cases p with
+    | none =>
+      simp only [run]
+      refine ⟨⟨by simp, by simp, by simp, by simp, by simp, by simp, ?_⟩, by simp, by simp⟩
+      intro i hi
+      simp only [List.mem_append, List.mem_singleton] at hi
+      rcases hi with hi | hi
+      · have := wf i hi; simp; omega
+      · simp; omega
+    | some a =>
+      simp only [h a rfl, if_true, run]
+      refine ⟨⟨?_, by simp, by simp, by simp, by simp, by simp, ?_⟩, by simp, by simp⟩
+      · intro i; simp [List.mem_filter]
+      · intro i hi
+        simp only [List.mem_append, List.mem_singleton, List.mem_filter] at hi
+        rcases hi with hi | hi
+        · have := wf i hi.1; simp; omega
+        · simp; omega
+
+theorem free_spec (p : Ptr) (s : Ledger) (wf : s.WF) (h : ∀ a, p = some a → a ∈ s.live) :
+    Good (free p) s (fun _ s' => Clean s s' p.toList [] ∧ s'.hits = s.hits ∧ s'.next = s.next) := by
+  unfold Good free
+  cases p with
+  | none => simp only [run]; exact ⟨⟨by simp, by simp, by simp, by simp, by simp, by simp, wf⟩, by simp, by simp⟩
+  | some a =>
+    simp only [run, h a rfl, if_true]
+    refine ⟨⟨?_, by simp, by simp, by simp [Ledger.release], by simp [Ledger.release], by simp [Ledger.release], ?_⟩,
+      by simp [Ledger.release], by simp [Ledger.release]⟩
+    · intro i; simp [Ledger.release]
+    · intro i hi; simp only [Ledger.release, List.mem_filter] at hi; exact wf i hi.1
+
+theorem deref_spec (a : Nat) (s : Ledger) (h : a ∈ s.live) :
+    Good (deref (some a)) s (fun _ s' => s' = s) := by
+  simp [Good, deref, run, h]
 
 end Wbxml.Model.Alloc
